@@ -1,0 +1,36 @@
+//go:build verif
+
+// Contracts for the govc verifier (/verif). Comment-only: with the "verif" tag off this file is
+// not part of any build; with it on it adds nothing but the package clause.
+package tsm1
+
+// ---- WAL entry decoding: no byte string can panic the decoder (C13, C01) ----
+
+//@ func (*WriteWALEntry).UnmarshalBinary
+//@   props C13 C01
+//@   requires values_map: w.Values != nil
+//@   loop 1 invariant iwf: 0 <= i && i <= len(b)
+//@   loop 1 decreases len(b) - i
+//@   loop 2 invariant fits: 0 <= j && j <= nvals && 0 <= i && i + 16*(nvals-j) <= len(b)
+//@   loop 2 invariant grows: i >= at_entry(i)
+//@   loop 2 decreases nvals - j
+//@   loop 3 invariant fits: 0 <= j && j <= nvals && 0 <= i && i + 16*(nvals-j) <= len(b)
+//@   loop 3 invariant grows: i >= at_entry(i)
+//@   loop 3 decreases nvals - j
+//@   loop 4 invariant fits: 0 <= j && j <= nvals && 0 <= i && i + 16*(nvals-j) <= len(b)
+//@   loop 4 invariant grows: i >= at_entry(i)
+//@   loop 4 decreases nvals - j
+//@   loop 5 invariant fits: 0 <= j && j <= nvals && 0 <= i && i + 9*(nvals-j) <= len(b)
+//@   loop 5 invariant grows: i >= at_entry(i)
+//@   loop 5 decreases nvals - j
+//@   loop 6 invariant iwf: 0 <= j && j <= nvals && 0 <= i && i <= len(b)
+//@   loop 6 invariant grows: i >= at_entry(i)
+//@   loop 6 decreases nvals - j
+
+//@ func (*DeleteWALEntry).UnmarshalBinary
+//@   props C13 C01
+
+//@ func (*DeleteRangeWALEntry).UnmarshalBinary
+//@   props C13 C01
+//@   loop 1 invariant iwf: 16 <= i && i <= len(b)
+//@   loop 1 decreases len(b) - i
